@@ -350,6 +350,7 @@ func checkMemReader(c *Ctx, rule string, ri *readerInfo) map[token.Pos]bool {
 	c.Check(rule, "reader: the text is fixed at construction (never written, re-sliced into the field, or re-filled from a source)", ri.typ.Obj().Pos(), immutable,
 		whyImm+": the reader would have buffer boundaries or a changing text, and neither the pointer invariant nor layout independence follows")
 
+	invariantUnknownCtor := false
 	// (2) constructor: cursors start at 0 (left zero or stored const 0), text is the constructor's []byte parameter unchanged
 	ctorOK, ctorWhy := true, ""
 	for _, w := range writes {
@@ -380,14 +381,24 @@ func checkMemReader(c *Ctx, rule string, ri *readerInfo) map[token.Pos]bool {
 			nName++
 		}
 	}
-	c.Check(rule, "reader: the constructor stores its text and file name parameters and starts both cursors at 0", ri.ctorFn.Pos(), ctorOK && nText == 1 && nName == 1,
-		fmt.Sprintf("%s (text stores=%d, file name stores=%d)", ctorWhy, nText, nName))
+	switch {
+	case !ctorOK:
+		c.Fail(rule, "reader: the constructor stores its text parameter and starts both cursors at 0", ri.ctorFn.Pos(), ctorWhy)
+	case nText == 1:
+		c.Pass(rule, "reader: the constructor stores its text parameter and starts both cursors at 0", ri.ctorFn.Pos(), fmt.Sprintf("text stores=%d, file name stores=%d", nText, nName))
+	default:
+		invariantUnknownCtor = true
+		c.Undecided(rule, "reader: the constructor stores its text parameter and starts both cursors at 0", ri.ctorFn.Pos(), fmt.Sprintf("text stores=%d", nText))
+	}
 
+	invariantUnknown := false
 	// (3) cursor updates preserve I
 	//   forward += size   with  _, size := utf8.DecodeRune(text[forward:])        (0 <= size <= len(text)-forward)
 	//   forward -= size   with  _, size := utf8.DecodeLastRune(text[begin:forward]) (0 <= size <= forward-begin)
 	//   begin    = forward
+	var helperRecv ssa.Value // receiver parameter of the helper whose returned slice was resolved (the fields are read from it)
 	decodeSize := func(f *ssa.Function, v ssa.Value, want string) (*ssa.Slice, bool) {
+		helperRecv = nil
 		ex, ok := v.(*ssa.Extract)
 		if !ok || ex.Index != 1 {
 			return nil, false
@@ -396,8 +407,21 @@ func checkMemReader(c *Ctx, rule string, ri *readerInfo) map[token.Pos]bool {
 		if !ok || staticCalleeName(call) != want {
 			return nil, false
 		}
-		sl, ok := call.Call.Args[0].(*ssa.Slice)
-		return sl, ok
+		if sl, ok := call.Call.Args[0].(*ssa.Slice); ok {
+			return sl, true
+		}
+		// a helper of the reader that returns a slice of the text (e.g. pending() = text[begin:forward])
+		if hc, ok := call.Call.Args[0].(*ssa.Call); ok {
+			if callee := hc.Call.StaticCallee(); callee != nil && len(callee.Blocks) == 1 && len(callee.Params) >= 1 && len(hc.Call.Args) >= 1 && isSameOrSpilled(hc.Call.Args[0], f.Params[0]) {
+				if ret, ok := callee.Blocks[0].Instrs[len(callee.Blocks[0].Instrs)-1].(*ssa.Return); ok && len(ret.Results) == 1 {
+					if sl, ok := ret.Results[0].(*ssa.Slice); ok {
+						helperRecv = callee.Params[0]
+						return sl, true
+					}
+				}
+			}
+		}
+		return nil, false
 	}
 	for _, w := range writes {
 		if w.fn == ri.ctorFn || (w.field != roles.begin && w.field != roles.forward) {
@@ -409,32 +433,58 @@ func checkMemReader(c *Ctx, rule string, ri *readerInfo) map[token.Pos]bool {
 			continue
 		}
 		recv := ssa.Value(f.Params[0])
-		ok, form := false, "unrecognised update"
+		ok, form, definite := false, "unrecognised update", false
+		lf := func(v ssa.Value, field int) bool {
+			if helperRecv != nil && loadOfField(v, helperRecv, field) {
+				return true
+			}
+			return loadOfField(v, recv, field)
+		}
 		switch w.field {
 		case roles.begin:
 			if loadOfField(w.st.Val, recv, roles.forward) {
 				ok, form = true, "begin = forward"
+			} else if _, isConst := w.st.Val.(*ssa.Const); isConst {
+				definite, form = true, "begin = constant"
 			}
 		case roles.forward:
 			if bo, isB := w.st.Val.(*ssa.BinOp); isB && loadOfField(bo.X, recv, roles.forward) {
+				if _, isConst := bo.Y.(*ssa.Const); isConst {
+					definite, form = true, "forward moved by a constant, not by the size of a decoded rune"
+				}
 				switch bo.Op {
 				case token.ADD:
-					if sl, isD := decodeSize(f, bo.Y, "unicode/utf8.DecodeRune"); isD && loadOfField(sl.X, recv, roles.text) && sl.High == nil && sl.Low != nil && loadOfField(sl.Low, recv, roles.forward) {
-						ok, form = true, "forward += size of DecodeRune(text[forward:])"
+					if sl, isD := decodeSize(f, bo.Y, "unicode/utf8.DecodeRune"); isD {
+						if lf(sl.X, roles.text) && sl.High == nil && sl.Low != nil && lf(sl.Low, roles.forward) {
+							ok, form = true, "forward += size of DecodeRune(text[forward:])"
+						} else {
+							definite, form = true, "forward += size of a rune decoded somewhere else than at text[forward:]"
+						}
 					}
 				case token.SUB:
-					if sl, isD := decodeSize(f, bo.Y, "unicode/utf8.DecodeLastRune"); isD && loadOfField(sl.X, recv, roles.text) && sl.Low != nil && sl.High != nil && loadOfField(sl.Low, recv, roles.begin) && loadOfField(sl.High, recv, roles.forward) {
-						ok, form = true, "forward -= size of DecodeLastRune(text[begin:forward])"
+					if sl, isD := decodeSize(f, bo.Y, "unicode/utf8.DecodeLastRune"); isD {
+						if lf(sl.X, roles.text) && sl.Low != nil && sl.High != nil && lf(sl.Low, roles.begin) && lf(sl.High, roles.forward) {
+							ok, form = true, "forward -= size of DecodeLastRune(text[begin:forward])"
+						} else {
+							definite, form = true, "forward -= size of the last rune of something else than text[begin:forward] (a retraction can pass the beginning of the lexeme)"
+						}
 					}
 				}
 			}
 		}
-		c.Check(rule, fmt.Sprintf("reader: %s updates %s in a way that keeps begin <= forward <= len(text) (%s)", shortFn(f), fname(w.field), form), w.st.Pos(), ok,
-			"the update is not one of: forward += size of utf8.DecodeRune(text[forward:]); forward -= size of utf8.DecodeLastRune(text[begin:forward]); begin = forward. "+
-				"The invariant that makes every slice of the text in bounds (and Retract stop at the beginning of the lexeme) is not established")
+		key := fmt.Sprintf("reader: %s updates %s in a way that keeps begin <= forward <= len(text)", shortFn(f), fname(w.field))
+		switch {
+		case ok:
+			c.Pass(rule, key, w.st.Pos(), form)
+		case definite:
+			c.Fail(rule, key, w.st.Pos(), form+": the invariant that makes every slice of the text in bounds (and Retract stop at the beginning of the lexeme) does not hold")
+		default:
+			invariantUnknown = true
+			c.Undecided(rule, key, w.st.Pos(), "the update is not one of: forward += size of utf8.DecodeRune(text[forward:]); forward -= size of utf8.DecodeLastRune(text[begin:forward]); begin = forward")
+		}
 	}
 	// with I established by (1)-(3), text[forward:], text[begin:forward] are in bounds
-	invariantHolds := true
+	invariantHolds := !invariantUnknown && !invariantUnknownCtor
 	for _, o := range c.Obs {
 		if o.Rule == rule && strings.HasPrefix(o.Key, "reader:") && !o.OK {
 			invariantHolds = false
@@ -492,7 +542,7 @@ func checkMemReaderPositions(c *Ctx, rule string, ri *readerInfo) {
 	}
 	// Next: io.EOF exactly when forward == len(text), and nothing is consumed then
 	recv := ssa.Value(next.Params[0])
-	eofOK := false
+	eofOK, eofSeen, eofOnCursor := false, false, false
 	for _, b := range next.Blocks {
 		ret, ok := b.Instrs[len(b.Instrs)-1].(*ssa.Return)
 		if !ok || len(ret.Results) != 2 {
@@ -507,7 +557,11 @@ func checkMemReaderPositions(c *Ctx, rule string, ri *readerInfo) {
 		if !isEOF {
 			continue
 		}
+		eofSeen = true
 		for _, cd := range controlConds(b) {
+			if bo, ok := cd.v.(*ssa.BinOp); ok && (loadOfField(bo.X, recv, roles.forward) || loadOfField(bo.Y, recv, roles.forward)) {
+				eofOnCursor = true
+			}
 			if bo, ok := cd.v.(*ssa.BinOp); ok && ((bo.Op == token.EQL && cd.pol) || (bo.Op == token.NEQ && !cd.pol) || (bo.Op == token.GEQ && cd.pol) || (bo.Op == token.LSS && !cd.pol)) {
 				if loadOfField(bo.X, recv, roles.forward) {
 					if call, ok := bo.Y.(*ssa.Call); ok {
@@ -519,8 +573,15 @@ func checkMemReaderPositions(c *Ctx, rule string, ri *readerInfo) {
 			}
 		}
 	}
-	c.Check(rule, "reader: Next reports io.EOF exactly when forward has reached the end of the text", next.Pos(), eofOK,
-		"no return of io.EOF guarded by forward == len(text): the end of the input is reported early, late, or by the value of a byte")
+	switch {
+	case eofOK:
+		c.Pass(rule, "reader: Next reports io.EOF exactly when forward has reached the end of the text", next.Pos(), "")
+	case eofSeen && eofOnCursor:
+		c.Fail(rule, "reader: Next reports io.EOF exactly when forward has reached the end of the text", next.Pos(),
+			"io.EOF is returned under a comparison of the forward cursor with something other than len(text): the end of the input is reported early or late")
+	default:
+		c.Undecided(rule, "reader: Next reports io.EOF exactly when forward has reached the end of the text", next.Pos(), "no return of io.EOF under a test of the forward cursor was recognised")
+	}
 	// the rune returned by Next is the one decoded at forward, and an invalid encoding is an error that consumes nothing
 	decoded := false
 	for _, b := range next.Blocks {
@@ -543,8 +604,11 @@ func checkMemReaderPositions(c *Ctx, rule string, ri *readerInfo) {
 			}
 		}
 	}
-	c.Check(rule, "reader: Next returns the rune decoded at forward and advances forward by its size", next.Pos(), decoded,
-		"the successful return of Next is not the rune decoded by utf8.DecodeRune after the forward pointer was advanced")
+	if decoded {
+		c.Pass(rule, "reader: Next returns the rune decoded at forward and advances forward by its size", next.Pos(), "")
+	} else {
+		c.Undecided(rule, "reader: Next returns the rune decoded at forward and advances forward by its size", next.Pos(), "the successful return of Next was not recognised as the rune decoded by utf8.DecodeRune after the forward pointer was advanced")
+	}
 	errNoConsume := true
 	for _, b := range next.Blocks {
 		ret, ok := b.Instrs[len(b.Instrs)-1].(*ssa.Return)
@@ -568,7 +632,7 @@ func checkMemReaderPositions(c *Ctx, rule string, ri *readerInfo) {
 
 	// Lexeme: the string is text[begin:forward]
 	lrecv := ssa.Value(lexeme.Params[0])
-	lexOK := false
+	lexOK, lexSeen := false, false
 	for _, b := range lexeme.Blocks {
 		ret, ok := b.Instrs[len(b.Instrs)-1].(*ssa.Return)
 		if !ok || len(ret.Results) != 2 {
@@ -576,6 +640,9 @@ func checkMemReaderPositions(c *Ctx, rule string, ri *readerInfo) {
 		}
 		v := retOperand(ret, 0)
 		if cv, ok := v.(*ssa.Convert); ok {
+			if sl, ok := cv.X.(*ssa.Slice); ok && loadOfField(sl.X, lrecv, roles.text) {
+				lexSeen = true
+			}
 			if sl, ok := cv.X.(*ssa.Slice); ok && loadOfField(sl.X, lrecv, roles.text) && sl.Low != nil && sl.High != nil &&
 				loadOfField(sl.Low, lrecv, roles.begin) && loadOfField(sl.High, lrecv, roles.forward) {
 				// taken before the cursors are committed: the slice precedes any call that writes begin
@@ -588,8 +655,15 @@ func checkMemReaderPositions(c *Ctx, rule string, ri *readerInfo) {
 			}
 		}
 	}
-	c.Check(rule, "reader: Lexeme returns exactly text[begin:forward], taken before the cursors are committed", lexeme.Pos(), lexOK,
-		"the string returned by Lexeme is not the conversion of text[begin:forward] taken before Skip moves begin")
+	switch {
+	case lexOK:
+		c.Pass(rule, "reader: Lexeme returns exactly text[begin:forward], taken before the cursors are committed", lexeme.Pos(), "")
+	case lexSeen:
+		c.Fail(rule, "reader: Lexeme returns exactly text[begin:forward], taken before the cursors are committed", lexeme.Pos(),
+			"the string returned by Lexeme is a slice of the text, but not text[begin:forward] taken before the cursors are committed")
+	default:
+		c.Undecided(rule, "reader: Lexeme returns exactly text[begin:forward], taken before the cursors are committed", lexeme.Pos(), "the returned string was not recognised as a conversion of a slice of the text")
+	}
 	// Lexeme's position is Skip's
 	posFromSkip := false
 	allCalls(lexeme, func(call ssa.CallInstruction) {
@@ -601,7 +675,11 @@ func checkMemReaderPositions(c *Ctx, rule string, ri *readerInfo) {
 			}
 		}
 	})
-	c.Check(rule, "reader: Lexeme's position is the one Skip returns", lexeme.Pos(), posFromSkip, "Lexeme does not return the result of Skip as its position")
+	if posFromSkip {
+		c.Pass(rule, "reader: Lexeme's position is the one Skip returns", lexeme.Pos(), "")
+	} else {
+		c.Undecided(rule, "reader: Lexeme's position is the one Skip returns", lexeme.Pos(), "Lexeme does not return the result of Skip as its position (positions may be computed in another way)")
+	}
 
 	// the position function: pos(pending)
 	var posFn *ssa.Function
@@ -622,6 +700,7 @@ func checkMemReaderPositions(c *Ctx, rule string, ri *readerInfo) {
 	// Skip: returns the position before (pos(false)), commits pos(true) to the stored position and begin = forward
 	srecv := ssa.Value(skip.Params[0])
 	var before, after *ssa.Call
+	var afters []*ssa.Call
 	allCalls(skip, func(call ssa.CallInstruction) {
 		cv, ok := call.(*ssa.Call)
 		if !ok || cv.Call.StaticCallee() != posFn {
@@ -632,6 +711,7 @@ func checkMemReaderPositions(c *Ctx, rule string, ri *readerInfo) {
 				before = cv
 			} else if k.Value.String() == "true" {
 				after = cv
+				afters = append(afters, cv)
 			}
 		}
 	})
@@ -645,7 +725,27 @@ func checkMemReaderPositions(c *Ctx, rule string, ri *readerInfo) {
 			}
 		}
 	}
-	c.Check(rule, "reader: Skip returns the position of the beginning of the lexeme", skip.Pos(), before != nil && retBefore, "Skip does not return pos(false), the position before the lexeme")
+	switch {
+	case before != nil && retBefore:
+		c.Pass(rule, "reader: Skip returns the position of the beginning of the lexeme", skip.Pos(), "")
+	case before == nil && after != nil && func() bool {
+		for _, b := range skip.Blocks {
+			if ret, ok := b.Instrs[len(b.Instrs)-1].(*ssa.Return); ok && len(ret.Results) == 1 {
+				for _, a := range afters {
+					for _, r := range rootsOf(skip, retOperand(ret, 0), func(v ssa.Value) bool { return v == ssa.Value(a) }) {
+						if r == ssa.Value(a) {
+							return true
+						}
+					}
+				}
+			}
+		}
+		return false
+	}():
+		c.Fail(rule, "reader: Skip returns the position of the beginning of the lexeme", skip.Pos(), "Skip returns the position after the lexeme")
+	default:
+		c.Undecided(rule, "reader: Skip returns the position of the beginning of the lexeme", skip.Pos(), "the value returned by Skip was not recognised as the position computed before the lexeme")
+	}
 	committed := map[string]bool{}
 	for _, b := range skip.Blocks {
 		for _, in := range b.Instrs {
@@ -684,8 +784,12 @@ func checkMemReaderPositions(c *Ctx, rule string, ri *readerInfo) {
 			commitOK = false
 		}
 	}
-	c.Check(rule, "reader: Skip commits offset, line and column of the position after the lexeme", skip.Pos(), commitOK,
-		fmt.Sprintf("stored position fields: %v; a position starts from %v (each reader field a position field starts from must receive that field of pos(true))", sortedKeys(committed), initOf))
+	if !commitOK && (after == nil || len(initOf) == 0) {
+		c.Undecided(rule, "reader: Skip commits offset, line and column of the position after the lexeme", skip.Pos(), "the way Skip stores the new position was not recognised")
+	} else {
+		c.Check(rule, "reader: Skip commits offset, line and column of the position after the lexeme", skip.Pos(), commitOK,
+			fmt.Sprintf("stored position fields: %v; a position starts from %v (each reader field a position field starts from must receive that field of pos(true))", sortedKeys(committed), initOf))
+	}
 }
 
 // checkPosWalk: pos(pending) starts from the stored (file name, offset, line, column) and, when pending, walks the runes of
@@ -728,10 +832,11 @@ func checkPosWalk(c *Ctx, rule string, ri *readerInfo, roles memRoles, posFn *ss
 			}
 		}
 	}
-	c.Check(rule, "reader positions: the pending part is walked rune by rune over text[begin:forward]", posFn.Pos(), overLexeme, "no `for _, r := range string(text[begin:forward])` in the position function")
 	if rng == nil {
+		c.Undecided(rule, "reader positions: the pending part is walked rune by rune over text[begin:forward]", posFn.Pos(), "no `for _, r := range string(text[begin:forward])` in the position function: positions are computed in a way this rule does not decide")
 		return initOf
 	}
+	c.Check(rule, "reader positions: the pending part is walked rune by rune over text[begin:forward]", posFn.Pos(), overLexeme, "the position function ranges over something else than string(text[begin:forward])")
 	// the walk happens only when the flag parameter is true
 	var flag *ssa.Parameter
 	for _, p := range posFn.Params[1:] {
